@@ -2,7 +2,7 @@
 # amaranth: UnusedElaboratable=no
 from hypothesis import strategies as st
 
-from vlib import gens, muxsim
+from vlib import gens, muxsim, sim
 from vlib.csrmodel import conforming_stimulus, arbitrary_stimulus
 from vlib.common import Violation
 from vlib.props.C04 import stim_labels
@@ -15,7 +15,7 @@ RULE = ("Same layout/stimulus space as C04. Every cycle: element.w_stb of every 
         "the model (identical observable behaviour). Non-trivial = a multi-chunk or padded writable "
         "register written completely with >= 1 other writable register present. Distinct = canonical JSON.")
 BUDGET = {"quick": (16, 400), "thorough": (16, 6000)}
-ESSENTIAL = ["unaligned", "padded", "multi_chunk", "shared_chunk", "stim:conf", "stim:arb", "aborted",
+ESSENTIAL = ["high_base_address", "unaligned", "padded", "multi_chunk", "shared_chunk", "stim:conf", "stim:arb", "aborted",
              "last_is_padding", "write_to_ro", "unmapped_access", "differential"]
 ASSUMPTIONS = [
     "w_data bits of chunks not written in the current transaction are don't-care",
@@ -32,10 +32,12 @@ def _spec(draw, tier):
 
 
 def strategy(tier):
-    return _spec(tier)
+    return gens.with_pre(_spec(tier))
 
 
 def check(spec, stats):
+    if sim.set_pre(spec):
+        stats.label("pre_elaborated")
     lay, stim = spec["lay"], spec["stim"]
     aw, plan = gens.plan_csr_layout(lay)
     muxsim.layout_labels(lay, plan, stats)
